@@ -5,6 +5,7 @@ package main
 // handed.  Mirror of the model side: lean/Driver/Mercury.lean, lean/DSV/Mercury/RefCodec.lean.
 
 import (
+	"sync"
 	"context"
 	"errors"
 	"fmt"
@@ -109,8 +110,16 @@ func mercConsErr(err error) J {
 type mercRefCodec struct {
 	maxLen, pad int
 	empty, fail bool
+	mu          sync.Mutex // calls / last are written from BuildReport, which may run on several goroutines
 	calls       int
 	last        J
+}
+
+func (c *mercRefCodec) record(last J) {
+	c.mu.Lock()
+	c.calls++
+	c.last = last
+	c.mu.Unlock()
 }
 
 var mercTwo256 = new(big.Int).Lsh(big.NewInt(1), 256)
@@ -176,10 +185,9 @@ type mercCodec4 struct{ *mercRefCodec }
 func (c *mercRefCodec) MaxReportLength(ctx context.Context, n int) (int, error) { return c.maxLen, nil }
 
 func (c mercCodec1) BuildReport(ctx context.Context, rf cv1.ReportFields) (ocrtypes.Report, error) {
-	c.calls++
-	c.last = J{"ts": S(rf.Timestamp), "bp": mercOptBig(rf.BenchmarkPrice), "bid": mercOptBig(rf.Bid), "ask": mercOptBig(rf.Ask),
+	c.record(J{"ts": S(rf.Timestamp), "bp": mercOptBig(rf.BenchmarkPrice), "bid": mercOptBig(rf.Bid), "ask": mercOptBig(rf.Ask),
 		"curNum": S(rf.CurrentBlockNum), "curHash": hexs(rf.CurrentBlockHash), "validFrom": S(rf.ValidFromBlockNum),
-		"curTs": S(rf.CurrentBlockTimestamp)}
+		"curTs": S(rf.CurrentBlockTimestamp)})
 	b, e1 := mercEnc32(rf.BenchmarkPrice)
 	bid, e2 := mercEnc32(rf.Bid)
 	ask, e3 := mercEnc32(rf.Ask)
@@ -195,9 +203,8 @@ func (c mercCodec1) CurrentBlockNumFromReport(ctx context.Context, r ocrtypes.Re
 }
 
 func (c mercCodec2) BuildReport(ctx context.Context, rf cv2.ReportFields) (ocrtypes.Report, error) {
-	c.calls++
-	c.last = J{"validFrom": S(rf.ValidFromTimestamp), "ts": S(rf.Timestamp), "nativeFee": mercOptBig(rf.NativeFee),
-		"linkFee": mercOptBig(rf.LinkFee), "expiresAt": S(rf.ExpiresAt), "bp": mercOptBig(rf.BenchmarkPrice)}
+	c.record(J{"validFrom": S(rf.ValidFromTimestamp), "ts": S(rf.Timestamp), "nativeFee": mercOptBig(rf.NativeFee),
+		"linkFee": mercOptBig(rf.LinkFee), "expiresAt": S(rf.ExpiresAt), "bp": mercOptBig(rf.BenchmarkPrice)})
 	n, e1 := mercEnc32(rf.NativeFee)
 	l, e2 := mercEnc32(rf.LinkFee)
 	b, e3 := mercEnc32(rf.BenchmarkPrice)
@@ -208,10 +215,9 @@ func (c mercCodec2) ObservationTimestampFromReport(ctx context.Context, r ocrtyp
 }
 
 func (c mercCodec3) BuildReport(ctx context.Context, rf cv3.ReportFields) (ocrtypes.Report, error) {
-	c.calls++
-	c.last = J{"validFrom": S(rf.ValidFromTimestamp), "ts": S(rf.Timestamp), "nativeFee": mercOptBig(rf.NativeFee),
+	c.record(J{"validFrom": S(rf.ValidFromTimestamp), "ts": S(rf.Timestamp), "nativeFee": mercOptBig(rf.NativeFee),
 		"linkFee": mercOptBig(rf.LinkFee), "expiresAt": S(rf.ExpiresAt), "bp": mercOptBig(rf.BenchmarkPrice),
-		"bid": mercOptBig(rf.Bid), "ask": mercOptBig(rf.Ask)}
+		"bid": mercOptBig(rf.Bid), "ask": mercOptBig(rf.Ask)})
 	n, e1 := mercEnc32(rf.NativeFee)
 	l, e2 := mercEnc32(rf.LinkFee)
 	b, e3 := mercEnc32(rf.BenchmarkPrice)
@@ -224,10 +230,9 @@ func (c mercCodec3) ObservationTimestampFromReport(ctx context.Context, r ocrtyp
 }
 
 func (c mercCodec4) BuildReport(ctx context.Context, rf cv4.ReportFields) (ocrtypes.Report, error) {
-	c.calls++
-	c.last = J{"validFrom": S(rf.ValidFromTimestamp), "ts": S(rf.Timestamp), "nativeFee": mercOptBig(rf.NativeFee),
+	c.record(J{"validFrom": S(rf.ValidFromTimestamp), "ts": S(rf.Timestamp), "nativeFee": mercOptBig(rf.NativeFee),
 		"linkFee": mercOptBig(rf.LinkFee), "expiresAt": S(rf.ExpiresAt), "bp": mercOptBig(rf.BenchmarkPrice),
-		"ms": S(rf.MarketStatus)}
+		"ms": S(rf.MarketStatus)})
 	n, e1 := mercEnc32(rf.NativeFee)
 	l, e2 := mercEnc32(rf.LinkFee)
 	b, e3 := mercEnc32(rf.BenchmarkPrice)
